@@ -49,6 +49,18 @@ FlatL(l) == IF l = <<>> THEN <<>> ELSE FlatG(Head(l)) \o FlatL(Tail(l))
 
 Acc(regs, s) == [r |-> regs[s].r, w |-> regs[s].w]
 
+\* ---- what any planner may do with a new system: append it somewhere ------------
+PlaceOK(ly, p) ==
+  /\ Len(p) = 3
+  /\ \/ p[1] = Len(ly) + 1 /\ p[2] = 1 /\ p[3] = 1
+     \/ p[1] \in DOMAIN ly /\ p[2] = Len(ly[p[1]]) + 1 /\ p[3] = 1
+     \/ p[1] \in DOMAIN ly /\ p[2] \in DOMAIN ly[p[1]] /\ p[3] = Len(ly[p[1]][p[2]]) + 1
+Placed1(ly, p, id) ==
+  IF p[1] = Len(ly) + 1 THEN Append(ly, << <<id>> >>)
+  ELSE IF p[2] = Len(ly[p[1]]) + 1 THEN [ly EXCEPT ![p[1]] = Append(@, <<id>>)]
+  ELSE [ly EXCEPT ![p[1]][p[2]] = Append(@, id)]
+
+
 \* ---- C01 (static half): side-by-side groups never conflict -----------------
 C01At(regs, lay, pos, s) ==
   \A a \in InStage(lay, pos[s][1]) :
